@@ -360,6 +360,71 @@ def gen_replaceiv(rng):
     return p
 
 
+def gen_foldret(rng):
+    """(source, scalars, arrays): a subroutine with early RETURNs (top-level conditional returns with
+    and without dead code / else branches, returns nested deeper, an unconditional return) called
+    once from a program that initialises and prints all arguments"""
+    p = make_prog(rng, with_m=False)
+    bg = bodygen(rng, p)
+    body = []
+
+    def cond():
+        x = rng.random()
+        if x < 0.5:
+            return f"{rng.choice(p.scalars)} {rng.choice(['>', '<', '>=', '=='])} {rng.randint(-2, 8)}"
+        return f"{rng.choice(p.arrays1)}({rng.randint(0, 6)}) {rng.choice(['>', '<', '<='])} {rng.randint(-3, 9)}"
+
+    for _ in range(rng.randint(3, 7)):
+        x = rng.random()
+        if x < 0.3:
+            body.append(f"  if ({cond()}) then")
+            body.append("    return")
+            if rng.random() < 0.15:
+                body += bg.assign([], "    ")          # dead code after the return
+            body.append("  endif")
+        elif x < 0.38:
+            body.append(f"  if ({cond()}) then")
+            body.append("    return")
+            body.append("  else")
+            body += bg.assign([], "    ")
+            body.append("  endif")
+        elif x < 0.46:
+            body.append(f"  if ({cond()}) then")
+            body += bg.assign([], "    ")
+            body.append("    return")
+            body.append("  endif")
+        elif x < 0.54:
+            body.append(f"  if ({cond()}) then")
+            body += bg.assign([], "    ")
+            body.append(f"    if ({cond()}) then")
+            body.append("      return")
+            body.append("    endif")
+            body += bg.assign([], "    ")
+            body.append("  endif")
+        elif x < 0.58:
+            body.append("  return")
+        elif x < 0.7:
+            body.append("  do i = 1, 5")
+            body += bg.assign(["i"], "    ")
+            body.append("  enddo")
+        else:
+            body += bg.assign([], "  ")
+    dims = f"dimension({A_LO}:{A_HI})"
+    lines = ["subroutine work(s0, s1, t, a, b, c)",
+             "  integer, intent(inout) :: s0, s1, t",
+             f"  integer, {dims}, intent(inout) :: a, b, c",
+             "  integer :: i, j, k"] + body + ["end subroutine work",
+             "program p",
+             "  integer :: s0, s1, t, i, j, k, ii, jj",
+             f"  integer, {dims} :: a, b, c"] + p.init + ["  call work(s0, s1, t, a, b, c)"]
+    for v in p.scalars:
+        lines.append(f"  print *, {v}")
+    for a in p.arrays1:
+        lines.append(f"  print *, {a}")
+    lines.append("end program p")
+    return "\n".join(lines) + "\n", list(p.scalars), list(p.arrays1), body
+
+
 def gen_generic(rng):
     p = make_prog(rng)
     bg = bodygen(rng, p)
